@@ -282,6 +282,69 @@ def run(ctx):
                         ctx.fail(name + '/restarted/not-optimal', 'after %d restart cycles of %d steps%s: norm %.10g, cycle-wise minimiser %.10g'
                                  % (cyc, m, ' (callback supplied)' if with_cb else '', val, best), dict(case, cycles=cyc, callback=with_cb))
                         break
+    # ---------- the same system in other units: every method is invariant under (A, b) -> (s A, s b); with s a power of two
+    # the iterates are the same numbers (no absolute threshold or guard may enter the step lengths)
+    rs_ = ctx.sub('scaled')
+    for t in range(6 if not ctx.thorough else 30):
+        n = rs_.choice([4, 6])
+        Ah, bh = systems(rs_, n, t % 3 == 2, True)
+        Agn, bgn = systems(rs_, n, t % 3 == 2, False)
+        if np.linalg.cond(Ah) > 1e3 or np.linalg.cond(Agn) > 1e2:
+            continue
+        for name in ('cg', 'steepest_descent', 'minimal_residual', 'cr', 'cgnr', 'cgne', 'gmres_mgs', 'gmres_householder', 'fgmres', 'bicgstab'):
+            A_, b_ = (Ah, bh) if name in ('cg', 'steepest_descent', 'minimal_residual', 'cr') else (Agn, bgn)
+            x0 = np.array([rs_.uniform(-1, 1) for _ in range(n)]).astype(b_.dtype)
+            fn = getattr(krylov, name)
+            try:
+                ref = iterates_of(fn, A_, b_, x0.copy(), 3)
+            except Exception as e:   # noqa
+                ctx.fail(name + '/scaled/raises', repr(e), dict(solver=name, scale=1))
+                continue
+            for ex in (-40, -20, 30):
+                sc = 2.0 ** ex
+                case = dict(solver=name, n=n, scale='2^%d' % ex, A=[[complex(v) for v in r] for r in A_], b=[complex(v) for v in b_],
+                            x0=[complex(v) for v in x0])
+                ctx.mark(case)
+                try:
+                    got = iterates_of(fn, A_ * sc, b_ * sc, x0.copy(), 3)
+                except Exception as e:   # noqa
+                    ctx.fail(name + '/scaled/raises', repr(e), case)
+                    continue
+                ctx.case((name, 'scaled', t, ex), True)
+                ctx.count('oracle:%s-scaled' % name)
+                if len(got) != len(ref) or any(_nn(np.linalg.norm(g - r)) > 1e-9 * (1 + np.linalg.norm(r)) for g, r in zip(got, ref)):
+                    dev = max([_nn(np.linalg.norm(g - r)) for g, r in zip(got, ref)] + [0.0])
+                    ctx.fail(name + '/not-scale-invariant', 'iterates of (sA, sb), s = 2^%d, differ from those of (A, b): %d vs %d iterates, max deviation %.3g'
+                             % (ex, len(got), len(ref), dev), case)
+    # ---------- identity plus low rank: GMRES finds the solution after (rank + 1) steps -- a "lucky breakdown"; the steps
+    # after it (and the re-orthogonalisation sweep, which only then has something to do) must leave it alone
+    rl = ctx.sub('lowrank')
+    for t in range(6 if not ctx.thorough else 30):
+        n = rl.choice([6, 8, 10])
+        rank = rl.choice([1, 2])
+        U = np.array([[rl.uniform(-1, 1) for _ in range(rank)] for _ in range(n)])
+        W = np.array([[rl.uniform(-1, 1) for _ in range(rank)] for _ in range(n)])
+        Al = np.eye(n) + U @ W.T
+        if np.linalg.cond(Al) > 1e3:
+            continue
+        bl_ = np.array([rl.uniform(-1, 1) for _ in range(n)])
+        for name, kw in (('gmres_mgs', {}), ('gmres_mgs', {'reorth': True}), ('gmres_householder', {}), ('fgmres', {})):
+            fn = getattr(krylov, name)
+            for k in (rank + 1, rank + 2, n):
+                case = dict(solver=name, options=kw, n=n, rank=rank, steps=k, A=Al.tolist(), b=bl_.tolist())
+                ctx.mark(case)
+                try:
+                    with warnings.catch_warnings():
+                        warnings.simplefilter('ignore')
+                        xk, _ = fn(Al, bl_, x0=np.zeros(n), tol=1e-300, maxiter=k, **kw)
+                except Exception as e:   # noqa
+                    ctx.fail(name + '/low-rank/raises', repr(e), case)
+                    continue
+                ctx.case((name, 'lowrank', t, k, repr(kw)), True)
+                ctx.count('oracle:%s-lowrank' % name)
+                rr = np.linalg.norm(bl_ - Al @ xk) if np.all(np.isfinite(xk)) else float('inf')
+                if not rr <= 1e-8 * np.linalg.cond(Al) * np.linalg.norm(bl_):
+                    ctx.fail(name + '/low-rank/not-solved', 'I + rank-%d matrix, %d steps%s: |b - A x| = %.3g' % (rank, k, ' (reorth)' if kw else '', rr), case)
     # ---------- small dyadic systems for the six recurrence models (cheap exact rationals, many systems)
     rq = ctx.sub('dyadic')
     for t in range(20 if not ctx.thorough else 120):
